@@ -10,6 +10,7 @@ from pyvc.verify import verify_function
 from pyvc.solve import solve_all
 
 TIMEOUT = {"quick": 30, "thorough": 150}
+ONLY = None      # developer filter (tools/ded.py): substrings of function names
 
 
 def build_registry(repo, prop):
@@ -32,8 +33,15 @@ def run(prop, tier, repo, short_patterns=()):
                assumptions=list(getattr(mod, "ASSUMPTIONS", [])))
     todo = []
     for q in getattr(mod, "FUNCTIONS", []):
+        if ONLY and not any(x in q for x in ONLY):
+            continue
         r = verify_function(reg, q, prop)
-        f = dict(qual=q, error=r.error, n=len(r.obligations),
+        eff = None
+        if r.fi is not None:
+            import hashlib
+            parts = [r.fi.sha()] + [idx.funcs[x].sha() for x in sorted(r.inlined) if x in idx.funcs]
+            eff = hashlib.sha256("|".join(parts).encode()).hexdigest()[:16]
+        f = dict(qual=q, error=r.error, n=len(r.obligations), eff_sha=eff,
                  path=r.fi.path if r.fi else None, sha=r.fi.sha() if r.fi else None,
                  file_sha=idx.file_sha.get(r.fi.path) if r.fi else None,
                  inlined=r.inlined, called=r.called, trusted=r.trusted)
@@ -46,6 +54,7 @@ def run(prop, tier, repo, short_patterns=()):
         for o in r.obligations:
             o["function"] = q
             o["source_sha"] = f["sha"]
+            o["eff_sha"] = eff
             todo.append(o)
     lemma_list = [("lib:" + n, h, c) for n, h, c in stdspec.lib_schemas()] if getattr(mod, "USES_LIB", False) else []
     if hasattr(mod, "lemmas"):
